@@ -80,30 +80,41 @@ def canonicalize_license_expression(
 
     tokens = license_expression.split()
 
-    # Rather than implementing boolean logic, we create an expression that Python can
-    # parse. Everything that is not involved with the grammar itself is treated as
-    # `False` and the expression should evaluate as such.
-    python_tokens = []
+    # Check the structure of the expression: operands and operators alternate,
+    # parentheses are balanced and not empty, and WITH joins a license to an
+    # exception. `previous` is the kind of the preceding token ("(", ")", "operator",
+    # "with", "license" or "exception"); the start behaves like an opening parenthesis.
+    depth = 0
+    previous = "("
     for token in tokens:
-        if token not in {"or", "and", "with", "(", ")"}:
-            python_tokens.append("False")
+        if token == "(":
+            valid = previous in {"(", "operator"}
+            depth += 1
+            previous = "("
+        elif token == ")":
+            valid = previous in {")", "license", "exception"} and depth > 0
+            depth -= 1
+            previous = ")"
+        elif token in {"or", "and"}:
+            valid = previous in {")", "license", "exception"}
+            previous = "operator"
         elif token == "with":
-            python_tokens.append("or")
-        elif token == "(" and python_tokens and python_tokens[-1] not in {"or", "and"}:
+            valid = previous == "license"
+            previous = "with"
+        elif previous == "with":
+            valid = True
+            previous = "exception"
+        else:
+            valid = previous in {"(", "operator"}
+            previous = "license"
+
+        if not valid:
             message = f"Invalid license expression: {raw_license_expression!r}"
             raise InvalidLicenseExpression(message)
-        else:
-            python_tokens.append(token)
 
-    python_expression = " ".join(python_tokens)
-    try:
-        invalid = eval(python_expression, globals(), locals())
-    except Exception:
-        invalid = True
-
-    if invalid is not False:
+    if depth > 0 or previous not in {")", "license", "exception"}:
         message = f"Invalid license expression: {raw_license_expression!r}"
-        raise InvalidLicenseExpression(message) from None
+        raise InvalidLicenseExpression(message)
 
     # Take a final pass to check for unknown licenses/exceptions.
     normalized_tokens = []
